@@ -398,10 +398,10 @@ def check(run):
                 "that was not given into False under no_data_loss (guard evaluated for the parameter's default); each "
                 "enumerated lossy operation is separated from no_data_loss by a raising test or a strict variant; the "
                 "union's retry stages only raise flags.")
-    r12a(run)
-    r12b(run)
-    r12c(run)
-    r12d(run)
+    run.rule(r12a, run)
+    run.rule(r12b, run)
+    run.rule(r12c, run)
+    run.rule(r12d, run)
     from . import c06
     _pd, _A, _B = c06.siblings(run)
-    c06.r06i(run, _A, _B)
+    run.rule(c06.r06i, run, _A, _B)
